@@ -97,6 +97,10 @@ fn c02(src: &str) -> R {
         if i + 1 < t.len() && t[i + 1].b0 != k.b1 {
             return Err(format!("gap/overlap after token {i}"));
         }
+        // "start offsets never decrease" and "every token ends where the next one starts" hold in both coordinates
+        if i + 1 < t.len() && (t[i + 1].c0 < k.c0 || t[i + 1].c0 != k.c1) {
+            return Err(format!("character offsets: token {i} is [{}..{}) but the next token starts at {}", k.c0, k.c1, t[i + 1].c0));
+        }
         let is_eof = k.ty == TokenType::EOF;
         if is_eof != (i + 1 == t.len()) {
             return Err(format!("EOF placement wrong at token {i}"));
